@@ -96,6 +96,27 @@ class Factor:
                 d = dict(it)
                 d[key] = [self.item(x, depth + 1) for x in body]
                 return d
+            if key == "$deref" and isinstance(body, dict):
+                # string macros in dictionary-VALUE position (the fields of a $deref): whole value or part of the name
+                d = {key: dict(body)}
+                for fk, fv in body.items():
+                    if isinstance(fv, str) and len(fv) >= 2 and "@" not in fv and not fv.startswith(("&", "$")) and g.chance(0.5):
+                        name = self.fresh()
+                        cut = g.int(1, len(fv) - 1)
+                        how = g.int(0, 2)
+                        if how == 0:
+                            self.add(name, fv)
+                            d[key][fk] = name
+                            self.forms.append("dict-value-whole")
+                        elif how == 1:
+                            self.add(name, fv[cut:])
+                            d[key][fk] = fv[:cut] + name
+                            self.forms.append("dict-value-suffix")
+                        else:
+                            self.add(name, fv[:cut])
+                            d[key][fk] = name + fv[cut:]
+                            self.forms.append("dict-value-prefix")
+                return d
         return it
 
 
